@@ -152,6 +152,44 @@ func (s *Snap) Confirmed() map[H]bool {
 
 // Digest is a canonical rendering of the observable ledger state (vertices with edges, storage, funds, index, parked).
 func (s *Snap) Digest() string {
+	keys := s.digestKeys()
+	return fmt.Sprint(len(keys), keys)
+}
+
+// DigestDiff lists the state items present in only one of the two snapshots.
+func DigestDiff(a, b *Snap) string {
+	ka, kb := a.digestKeys(), b.digestKeys()
+	ma, mb := map[string]bool{}, map[string]bool{}
+	for _, k := range ka {
+		ma[k] = true
+	}
+	for _, k := range kb {
+		mb[k] = true
+	}
+	var d []string
+	short := func(k string) string {
+		if len(k) > 28 {
+			return k[:28]
+		}
+		return k
+	}
+	for _, k := range ka {
+		if !mb[k] {
+			d = append(d, "-"+short(k))
+		}
+	}
+	for _, k := range kb {
+		if !ma[k] {
+			d = append(d, "+"+short(k))
+		}
+	}
+	if len(d) > 10 {
+		d = append(d[:10], fmt.Sprintf("... %d items", len(d)))
+	}
+	return fmt.Sprint(d)
+}
+
+func (s *Snap) digestKeys() []string {
 	var keys []string
 	for h, l := range s.Live {
 		ps := []string{}
@@ -179,7 +217,7 @@ func (s *Snap) Digest() string {
 		keys = append(keys, "T"+t)
 	}
 	sort.Strings(keys)
-	return fmt.Sprint(len(keys), keys)
+	return keys
 }
 
 // ---------------------------------------------------------------------------------
